@@ -14,13 +14,13 @@ import (
 const inf = math.MaxInt32
 
 type gEnt struct {
-	Idx    int    // index in cmds
-	Lab    string // "2" or "2.x"
-	Kind   int
-	Defer  bool
-	Fail   int
-	Ign    bool
-	Callee *gInst
+	Idx         int    // index in cmds
+	Lab         string // "2" or "2.x"
+	Kind        int
+	Defer       bool
+	Fail        int
+	Ign         bool
+	Callee      *gInst
 	NoDeferVars bool // deferred call with templated vars (known defect trigger)
 }
 
@@ -35,31 +35,31 @@ type gInst struct {
 	Skip   bool   // platform mismatch: silent success, nothing runs
 	Root   bool
 	// parent edge (for non-shared, non-root instances)
-	Parent     *gInst
-	ParentDep  bool
-	ParentEnt  *gEnt
+	Parent    *gInst
+	ParentDep bool
+	ParentEnt *gEnt
 	// static result
 	resDone bool
 	resOK   bool
 	resKind string // "exit", "guard"
 	codes   map[int]bool
 	// trace facts
-	sSeq map[string]int // label -> seq of S event
-	eSeq map[string]int
+	sSeq          map[string]int // label -> seq of S event
+	eSeq          map[string]int
 	okMemo, okAtV int
-	fdMemo bool
-	fdAtV  int
-	firstOwn int
+	fdMemo        bool
+	fdAtV         int
+	firstOwn      int
 }
 
 type gModel struct {
 	deferAlias map[string]*gEnt
-	p      *gProg
-	roots  []*gInst
-	byP    map[string]*gInst
-	order  []*gInst
-	over   bool
-	budget int
+	p          *gProg
+	roots      []*gInst
+	byP        map[string]*gInst
+	order      []*gInst
+	over       bool
+	budget     int
 }
 
 func newGModel(p *gProg) *gModel { return &gModel{p: p, byP: map[string]*gInst{}} }
@@ -73,11 +73,7 @@ func (m *gModel) build(budget int) bool {
 		case "always":
 			in = m.inst(t, "r"+strconv.Itoa(i), r.V, r.HasV)
 		default:
-			v := r.V
-			if effRun(m.p, t) == "once" {
-				v = ""
-			}
-			in = m.inst(t, "", v, r.HasV)
+			in = m.inst(t, "", r.V, r.HasV)
 		}
 		if in == nil {
 			return false
@@ -105,6 +101,32 @@ func (m *gModel) inst(t *gTask, P, V string, hasV bool) *gInst {
 	}
 	run := effRun(m.p, t)
 	if run == "once" {
+		if t.Requires != "" && t.Platform != "nomatch" {
+			// the requires guard of a run: once task is evaluated per call, before the call is deduplicated: a
+			// call that trips it fails by itself (a private, empty instance) and never joins the shared execution
+			gv, gh := V, hasV
+			if !gh && m.p.IncDefaultV {
+				gv, gh = "incv", true
+			}
+			g := ""
+			switch {
+			case !gh:
+				g = "requires"
+			case t.Requires == "enum" && gv != "a" && gv != "b":
+				g = "enum"
+			}
+			if g != "" {
+				if len(m.byP) >= m.budget {
+					m.over = true
+					return nil
+				}
+				k := fmt.Sprintf("!guard%d:%s@%s", len(m.order), P, t.Name)
+				in := &gInst{T: t, P: k, V: gv, Guard: g, sSeq: map[string]int{}, eSeq: map[string]int{}, firstOwn: inf}
+				m.byP[k] = in
+				m.order = append(m.order, in)
+				return in
+			}
+		}
 		V = ""
 	}
 	k := m.key(t, P, V)
@@ -128,6 +150,8 @@ func (m *gModel) inst(t *gTask, P, V string, hasV bool) *gInst {
 	switch {
 	case t.Platform == "nomatch":
 		in.Skip = true
+	case run == "once":
+		// evaluated per call, above
 	case t.Requires == "set" && !hasV:
 		in.Guard = "requires"
 	case t.Requires == "enum" && !hasV:
@@ -536,12 +560,12 @@ type gVerdict struct {
 
 type gChecker struct {
 	cancelPossible bool
-	m       *gModel
-	evs     []pEv
-	out     []gVerdict
-	seenSig map[string]bool
-	openMax int
-	firstDeferAt map[*gInst]int
+	m              *gModel
+	evs            []pEv
+	out            []gVerdict
+	seenSig        map[string]bool
+	openMax        int
+	firstDeferAt   map[*gInst]int
 }
 
 func (c *gChecker) add(prop, sig, format string, a ...any) {
